@@ -1289,6 +1289,9 @@ func (c *Context) Pow(d, x, y *Decimal) (Condition, error) {
 	ed.Mul(&tmp, z, &tmp)
 
 	if err := ed.Err(); err != nil {
+		// As for a failed integer power above: do not leave an intermediate
+		// value (the integer power, or nothing at all when d == x) behind.
+		d.Set(decimalNaN)
 		return ed.Flags, err
 	}
 	res |= c.round(d, &tmp)
